@@ -12,7 +12,7 @@ CHECK = {
     "manifest": {
         "engine": "ENUM",
         "technique": "bounded-exhaustive breadth-first search over operation histories of a pooled instance, with complete single-fault enumeration (every bit flip, every truncation) of the input stream, against independent decoders",
-        "text": "For each of the 6 encodings and 5 inputs (empty, 1 byte, repetitive, 256 distinct bytes, 64 KB pseudo-random) every history of length <=3 (quick) / <=4 (thorough) over the operations of one compressor (Reset to buffer/io.Discard/failing sink, Write, Close) or decompressor (decode valid, decode corrupt, Reset(http.NoBody), Close, Read, pool-put) obtained once from compression.GetCompressor/GetDecompressor is replayed on a fresh instance and followed by the oracle: the decompressor must return exactly the original bytes for the valid stream, the compressor's output must be decoded to the original by an independent decoder; corrupt ranges over every single-bit flip and every proper prefix of the valid stream of the short inputs and, for every input, over the well-formed message of each neighbouring format (bare RFC 1951 deflate compressed / stored, zlib, gzip, zstd, snappy block, snappy framed, brotli, plain bytes, two gzip members, zlib with trailing bytes; own format excluded) - whether the instance rejects or tolerates it, the later valid message must decode exactly; every compressor history is run for 7 ways of handing the message to Write (the input slice itself; 1, 2, 3 pieces from ONE transfer buffer that the caller overwrites after each Write returns; io.Copy; io.CopyBuffer with a 16-byte buffer; a 16-byte bufio.Writer; quick tier: the 64 KB input only whole, in 2 pieces and by io.Copy) with the same round-trip oracle; no operation may panic. Histories over TWO instances (of the same encoding: length <=3 [4], inputs (ab300, bytes256), (empty, a) [+ (a, lcg64k)]; of two different encodings, all 30 ordered pairs: length <=2 [3]; compressors one shorter): operations {V, S Reset(valid) only, D read all, C, X, P} / {B, W, X, D} on either instance in every interleaving, the second instance created at the start or at its first use, followed by the interleaved oracle phase 0S 1S 0D 1D (0B 1B 0W 1W 0X 1X): every instance must return / emit ITS OWN input. A peer unit sends, to the reference server built by createServer {no receive limit, 200 KiB [+1 MiB]} x {plain, reference mode}, Unary requests as Connect unary and gRPC-Web, compressed with each encoding by {compression.GetCompressor, a fresh library encoder}, of serialized size 8 and 2^k-1, 2^k, 2^k+1 (k = 10..17 [..20]) up to the limit, limit-1 and limit, contents {zeros, half pseudo-random}: accepted, echoed request identical, response (same encoding offered) decodable by the library decoder. A further unit checks that the same name denotes the same algorithm in compression.GetCompressor/GetDecompressor, tracer.GetDecompressor, the reference server's checkCompression mapping, the constructor pairs the reference server and client register with connect-go, the raw-payload encoder and the independent codecs, in both directions.",
+        "text": "For each of the 6 encodings and 5 inputs (empty, 1 byte, repetitive, 256 distinct bytes, 64 KB pseudo-random) every history of length <=3 (quick) / <=4 (thorough) over the operations of one compressor (Reset to buffer/io.Discard/failing sink, Write, Close) or decompressor (decode valid, decode corrupt, Reset(http.NoBody), Close, Read, pool-put) obtained once from compression.GetCompressor/GetDecompressor is replayed on a fresh instance and followed by the oracle: the decompressor must return exactly the original bytes for the valid stream, the compressor's output must be decoded to the original by an independent decoder; corrupt ranges over every single-bit flip and every proper prefix of the valid stream of the short inputs and, for every input, over the well-formed message of each neighbouring format (bare RFC 1951 deflate compressed / stored, zlib, gzip, zstd, snappy block, snappy framed, brotli, plain bytes, two gzip members, zlib with trailing bytes; own format excluded) - whether the instance rejects or tolerates it, the later valid message must decode exactly; every compressor history is run for 7 ways of handing the message to Write (the input slice itself; 1, 2, 3 pieces from ONE transfer buffer that the caller overwrites after each Write returns; io.Copy; io.CopyBuffer with a 16-byte buffer; a 16-byte bufio.Writer; quick tier: the 64 KB input only whole, in 2 pieces and by io.Copy) with the same round-trip oracle; no operation may panic. Histories over TWO instances (of the same encoding: length <=3 [4], inputs (ab300, bytes256), (empty, a) [+ (a, lcg64k)]; of two different encodings, all 30 ordered pairs: length <=2 [3]; compressors one shorter): operations {V, S Reset(valid) only, D read all, C, X, P} / {B, W, X, D} on either instance in every interleaving, the second instance created at the start or at its first use, followed by the interleaved oracle phase 0S 1S 0D 1D (0B 1B 0W 1W 0X 1X): every instance must return / emit ITS OWN input. A peer unit sends, to the reference server built by createServer {no receive limit, 200 KiB [+1 MiB]} x {plain, reference mode}, Unary requests as Connect unary and gRPC-Web, compressed with each encoding by {compression.GetCompressor, a fresh library encoder}, of serialized size 8 and 2^k-1, 2^k, 2^k+1 (k = 10..17 [..20]) up to the limit, limit-1 and limit, contents {zeros, half pseudo-random}: accepted, echoed request identical, response (same encoding offered) decodable by the library decoder. A further unit checks that the same name denotes the same algorithm in compression.GetCompressor/GetDecompressor, tracer.GetDecompressor, the reference server's checkCompression mapping, the constructor pairs the reference server and client register with connect-go, the raw-payload encoder and the independent codecs, in both directions: every producer x every consumer of the name must return the original bytes, each party that is a connect.Compressor / connect.Decompressor instance also as a POOLED instance (second message of an instance used and parked exactly as connect-go's compressionPool does: Reset(dst), bytes.Buffer.WriteTo - no Write call at all for the empty message -, Close, Reset(io.Discard); Reset(src), read, Close, Reset(http.NoBody)), for 6 inputs and for the inputs that compress best - all-zero, repeated 'a', repeated 'abc' [+ 0xFF, 'ab', 'conform'] at sizes 2^k-1, 2^k, 2^k+1, k = 10..20 [..21] (brotli and zstd expand these several thousand times; the observed ratio classes are recorded) - so that every decompressor the tree hands out (compression.GetDecompressor, tracer.GetDecompressor, registered constructors) is checked to be the exact inverse for extreme expansion ratios too.",
         "note": "Fresh library instances are trusted as oracle. Multi-corruption histories use representatives (stated in the rule). Concurrency on one instance is not explored.",
         "design_ref": "DESIGN.md §2.2, §4 C20",
     },
@@ -35,8 +35,9 @@ CHECK = {
             "name": "c20-agree", "pkg": "internal/app/referenceserver",
             "harness": ["referenceserver/c20_agree_test.go"],
             "test": "^TestVerifC20Agree$",
-            "shards": {"quick": 1, "thorough": 1},
-            "budget_s": {"quick": 30, "thorough": 60},
+            "shards": {"quick": 8, "thorough": 16},
+            "budget_s": {"quick": 40, "thorough": 300},
+            "overlap": True,   # light (about 25 CPU-seconds in the quick tier): runs beside c20-hist / c20-peer
         },
     ],
 }
